@@ -19,5 +19,6 @@ TECHNIQUE = {
     'C15': 'static writer/reader agreement: XML template vocabulary vs attributes indexed by the SAX handler, access and direction values pushed through the reader by constant folding, counter/signature pairing by path enumeration, reuse truth table',
     'C19': 'static shape and tiling analysis: inferred-signature shapes over the return paths of sigFromPy, index-advance = piece-length identity on every branch of the splitter, bracket-matcher counter rules, repeated-test lint, wrapper-table agreement',
     'C11': 'static call conformance over the resolved call graph (incl. typed receivers), binding-role dataflow at the proxy call site, construction-path rule for proxies',
+    'C13': 'static decision table: RequestName return codes and queue effects extracted by path enumeration with tests mapped to atoms by data-flow provenance, compared with the specification function on all assignments; cleanup and duplicate-guard path rules',
     'C02': 'static conformance check of the extracted codec model against specification tables; padding function interpreted in the congruence domain mod 8',
 }
